@@ -75,10 +75,12 @@ T_shellopts ==
      IN OS(ShortOfLong(n), n)]
 \* `set`: the shell options (startup-only ones cannot be changed, but they
 \* still are names for the purpose of abbreviation)
-T_set == T_shellopts
+\* plus `-o name` (options.md "You can also specify long options with the -o
+\* option"): an option with an option-argument
+T_set == T_shellopts \o << OSA("o", "") >>
 \* command line of the shell: shell options + startup.md ("Options", and the
 \* yash-specific -V, --help, --version named under "Compatibility")
-T_sh == T_shellopts \o << OSA("", "profile"), OS("", "noprofile"), OSA("", "rcfile"), OS("", "norcfile"),
+T_sh == T_shellopts \o << OSA("o", ""), OSA("", "profile"), OS("", "noprofile"), OSA("", "rcfile"), OS("", "norcfile"),
                           OS("V", "version"), OS("", "help") >>
 
 \* ---- catalogue --------------------------------------------------------------
@@ -106,6 +108,8 @@ Catalogue == <<
       CE("", "probe $PWD", << <<"P">>, <<"e">> >>, <<"/tmp/link">>),
       CE("cd /tmp/d; cd /tmp", "probe $PWD", << <<"P">> >>, <<"-">>),
       CE("", "probe $PWD", NoOpts, <<"-P">>),
+      CE("", "probe $PWD", << <<"e">> >>, <<"/tmp/d">>),
+      CE("", "probe $PWD", << <<"L">>, <<"e">> >>, <<"/tmp/d">>),
       CE("", "probe $PWD", NoOpts, <<>>) >>),
   CB("command", T_command, AllBad, <<
       CE("", "", << <<"v">> >>, <<"cd">>),
@@ -253,6 +257,8 @@ Catalogue == <<
       CE("", "probe \"$@\"", << <<"noclobber">>, <<"b">> >>, <<"x", "-">>),
       CE("set -- p q", "probe \"$@\"", << <<"nolog">> >>, <<"">>),
       CE("set -- p q", "probe $#", << <<"noglob">>, <<"h">>, <<"v">> >>, <<"--", "r">>),
+      CE("", "probe \"$@\"", << <<"a">>, <<"o", "errexit">>, <<"u">> >>, <<"x">>),
+      CE("", "probe \"$@\"", << <<"o", "nolog">>, <<"o", "pipefail">> >>, <<"-o">>),
       CE("set -- p q", "probe $#", NoOpts, <<"--", "r">>) >>)
 >>
 
@@ -266,6 +272,7 @@ ShCatalogue == <<
   CE("", "", << <<"s">>, <<"x">> >>, <<"p1", "-p2">>),
   CE("", "", << <<"s">>, <<"norcfile">>, <<"profile", "/tmp/s.sh">> >>, <<>>),
   CE("", "", << <<"v">>, <<"noprofile">> >>, <<"/tmp/s.sh", "a1">>),
+  CE("", "", << <<"o", "errexit">>, <<"c">>, <<"o", "nounset">> >>, <<"snap end">>),
   CE("", "", NoOpts, <<"/tmp/s.sh", "-a1", "--">>)
 >>
 ShBad == {"US", "UL", "AM", "UA", "MA"}
